@@ -558,4 +558,410 @@ theorem sInv_nodecolor (g sg : Graph) (C : Constraints) (tbm : List Int)
 
 theorem mapOK_nil (g sg : Graph) (C : Constraints) : MapOK g sg C [] := ⟨List.Pairwise.nil, by simp⟩
 
+/-! ### completeness of `_map_nodes` -/
+
+/-- `F` is a solution on the nodes `tbm`: an induced colour-respecting isomorphism that meets,
+for every ordered pair of distinct nodes, what the search demands of the constraints -/
+def Sol (g sg : Graph) (C : Constraints) (tbm : List Int) (F : Int → Int) : Prop :=
+  IsIndIsoOn g sg (colourPred g sg) tbm F ∧ ∀ a ∈ tbm, ∀ b ∈ tbm, a ≠ b → cOK C a (F a) b (F b) = true
+
+/-- completeness invariant of the candidate table with respect to a solution `F` -/
+def CInv (cands : Cands) (mapping : Map) (tbm : List Int) (F : Int → Int) : Prop :=
+  ∀ u ∈ tbm, u ∉ mapping.map Prod.fst → cands.get u ≠ [] ∧ ∀ s ∈ cands.get u, F u ∈ s
+
+theorem cInv_set_intersect {cands : Cands} {mapping : Map} {tbm : List Int} {F : Int → Int}
+    (h : CInv cands mapping tbm F) (v : Int) : CInv (cands.set v [intersect (cands.get v)]) mapping tbm F := by
+  intro u hu hun
+  rw [Cands.get_set]
+  split
+  · rename_i e
+    have e' : u = v := by simpa using e
+    subst e'
+    refine ⟨by simp, ?_⟩
+    intro s hs
+    have : s = intersect (cands.get u) := by simpa using hs
+    subst this
+    exact (mem_intersect_iff (h u hu hun).1 _).2 (h u hu hun).2
+  · exact h u hu hun
+
+theorem cInv_step {g sg : Graph} {C : Constraints} {cands : Cands} {mapping : Map} {tbm : List Int}
+    {F : Int → Int} {sgn : Int} (hsol : Sol g sg C tbm F) (hsgn : sgn ∈ tbm) (h : CInv cands mapping tbm F) :
+    let keys := ((sgn, F sgn) :: mapping).map Prod.fst
+    let left := tbm.filter fun u => !keys.contains u
+    CInv (left.foldl (addOptions g sg C sgn (F sgn)) (cands.set sgn [intersect (cands.get sgn)]))
+      ((sgn, F sgn) :: mapping) tbm F := by
+  intro keys left u hu hun
+  have hun' : u ≠ sgn ∧ u ∉ mapping.map Prod.fst := by
+    simp only [List.map_cons, List.mem_cons, not_or] at hun; exact hun
+  have hne : (u == sgn) = false := by simpa using hun'.1
+  obtain ⟨h1, h2⟩ := h u hu hun'.2
+  constructor
+  · obtain ⟨s0, hs0⟩ := List.exists_mem_of_ne_nil _ h1
+    intro e
+    have : s0 ∈ (left.foldl (addOptions g sg C sgn (F sgn)) (cands.set sgn [intersect (cands.get sgn)])).get u := by
+      rw [mem_get_foldl_addOptions, Cands.get_set, hne]; exact Or.inl hs0
+    rw [e] at this; simp at this
+  · intro s hs
+    rw [mem_get_foldl_addOptions, Cands.get_set, hne] at hs
+    rcases hs with hs | ⟨_, hs | hs⟩
+    · exact h2 s hs
+    · subst hs
+      exact mem_edgeOptions_complete (hsol.1.node u hu).1 (hsol.1.edge sgn hsgn u hu (fun e => hun'.1 e.symm))
+    · exact consOptions_complete (hsol.1.node u hu).1 (hsol.2 sgn hsgn u hu (fun e => hun'.1 e.symm)) s hs
+
+/-- **Completeness of `_map_nodes`**: every solution that extends the current mapping and whose
+values lie in all candidate sets is yielded. -/
+theorem mapNodes_complete {pick : Cands → List Int → Int} (hpick : PickOK pick) (g sg : Graph) (C : Constraints)
+    (tbm : List Int) (F : Int → Int) (hsol : Sol g sg C tbm F)
+    (fuel : Nat) (sgn : Int) (cands : Cands) (mapping : Map)
+    (hext : ∀ x ∈ mapping, F x.1 = x.2) (hdom : ∀ x ∈ mapping, x.1 ∈ tbm)
+    (hinv : CInv cands mapping tbm F) (hsgn : sgn ∈ tbm) (hnew : sgn ∉ mapping.map Prod.fst)
+    (hnd : (mapping.map Prod.fst).Nodup) (hfuel : tbm.length ≤ fuel + mapping.length) :
+    ∃ m ∈ mapNodes pick g sg C fuel sgn cands mapping tbm, ∀ u ∈ tbm, Map.toFun m u = F u := by
+  induction fuel generalizing sgn cands mapping with
+  | zero =>
+    exfalso
+    have hn : (sgn :: mapping.map Prod.fst).Nodup := List.nodup_cons.2 ⟨hnew, hnd⟩
+    have hsub : (sgn :: mapping.map Prod.fst) ⊆ tbm := by
+      intro x hx
+      rcases List.mem_cons.1 hx with rfl | hx
+      · exact hsgn
+      · obtain ⟨y, hy, rfl⟩ := List.mem_map.1 hx
+        exact hdom y hy
+    have := hn.length_le_of_subset hsub
+    simp at this hfuel
+    omega
+  | succ fuel ih =>
+    have hgn : F sgn ∈ sortInts (intersect (cands.get sgn)) := by
+      rw [mem_sortInts, mem_intersect_iff (hinv sgn hsgn hnew).1]
+      exact (hinv sgn hsgn hnew).2
+    have hval : (mapping.any fun p => p.2 == F sgn) = false := by
+      rw [List.any_eq_false]
+      intro x hx hx2
+      have hx2' : x.2 = F sgn := by simpa using hx2
+      have hne : x.1 ≠ sgn := fun e => hnew (e ▸ mem_keys_of_mem hx)
+      exact hsol.1.inj _ (hdom x hx) _ hsgn hne (by rw [hext x hx, hx2'])
+    have htbm : tbm.contains sgn = true := by simpa using hsgn
+    have hext' : ∀ x ∈ (sgn, F sgn) :: mapping, F x.1 = x.2 := by
+      intro x hx
+      rcases List.mem_cons.1 hx with rfl | hx
+      · rfl
+      · exact hext x hx
+    have hdom' : ∀ x ∈ (sgn, F sgn) :: mapping, x.1 ∈ tbm := by
+      intro x hx
+      rcases List.mem_cons.1 hx with rfl | hx
+      · exact hsgn
+      · exact hdom x hx
+    have hnd' : (((sgn, F sgn) :: mapping).map Prod.fst).Nodup := by
+      simp only [List.map_cons, List.nodup_cons]; exact ⟨hnew, hnd⟩
+    have key : ∀ (f : Int → List Map), (∃ m ∈ f (F sgn), ∀ u ∈ tbm, Map.toFun m u = F u) →
+        ∃ m ∈ (sortInts (intersect (cands.get sgn))).flatMap f, ∀ u ∈ tbm, Map.toFun m u = F u :=
+      fun f ⟨m, hm, hp⟩ => ⟨m, List.mem_flatMap.2 ⟨F sgn, hgn, hm⟩, hp⟩
+    simp only [mapNodes]
+    apply key
+    simp only [hval, htbm, Bool.not_true, Bool.or_self, Bool.false_eq_true, if_false]
+    split
+    · refine ⟨_, List.mem_singleton.2 rfl, ?_⟩
+      rename_i hsame
+      intro u hu
+      have hu' := ((sameSet_iff _ _).1 hsame u).1 hu
+      have hm := mem_toFun hnd' hu'
+      exact (hext' _ hm).symm
+    · rename_i hsame
+      split
+      · rename_i hleft
+        exfalso
+        apply hsame
+        rw [sameSet_iff]
+        intro x
+        constructor
+        · intro hx
+          apply Classical.byContradiction
+          intro hnx
+          have : x ∈ tbm.filter fun u => !(((sgn, F sgn) :: mapping).map Prod.fst).contains u := by
+            simp only [List.mem_filter, Bool.not_eq_true', List.contains_eq_mem, decide_eq_false_iff_not]
+            exact ⟨hx, hnx⟩
+          rw [List.isEmpty_iff.1 hleft] at this
+          simp at this
+        · intro hx
+          obtain ⟨y, hy, rfl⟩ := List.mem_map.1 hx
+          exact hdom' y hy
+      · rename_i hleft
+        have hne : (tbm.filter fun u => !(((sgn, F sgn) :: mapping).map Prod.fst).contains u) ≠ [] := by
+          intro e; apply hleft; rw [e]; rfl
+        have hp := hpick (List.foldl (addOptions g sg C sgn (F sgn)) (cands.set sgn [intersect (cands.get sgn)])
+          (tbm.filter fun u => !(((sgn, F sgn) :: mapping).map Prod.fst).contains u)) _ hne
+        exact ih _ _ _ hext' hdom' (cInv_step hsol hsgn hinv) (List.mem_filter.1 hp).1
+          (not_mem_of_mem_filter_not_contains hp) hnd' (by simp only [List.length_cons]; omega)
+
+/-! ### every solution once: the yielded mappings differ pairwise as functions -/
+
+/-- all candidate sets are duplicate-free (they are filters of the graph's node list) -/
+def NInv (cands : Cands) : Prop := ∀ u, ∀ s ∈ cands.get u, s.Nodup
+
+theorem nInv_set_intersect {cands : Cands} (h : NInv cands) (v : Int) :
+    NInv (cands.set v [intersect (cands.get v)]) := by
+  intro u s hs
+  rw [Cands.get_set] at hs
+  split at hs
+  · have : s = intersect (cands.get v) := by simpa using hs
+    subst this
+    exact intersect_nodup (h v)
+  · exact h u s hs
+
+theorem nInv_step {g sg : Graph} (hg : g.keys.Nodup) {C : Constraints} {cands : Cands} (h : NInv cands)
+    (sgn gn : Int) (left : List Int) :
+    NInv (left.foldl (addOptions g sg C sgn gn) (cands.set sgn [intersect (cands.get sgn)])) := by
+  intro u s hs
+  rw [mem_get_foldl_addOptions] at hs
+  rcases hs with hs | ⟨_, hs | hs⟩
+  · exact nInv_set_intersect h sgn u s hs
+  · subst hs; exact edgeOptions_nodup hg _ _ _
+  · exact consOptions_nodup hg hs
+
+/-- the yielded mappings extend the given one and list every node once (no invariant needed) -/
+theorem mapNodes_struct {pick : Cands → List Int → Int} (hpick : PickOK pick) (g sg : Graph) (C : Constraints)
+    (tbm : List Int) (fuel : Nat) (sgn : Int) (cands : Cands) (mapping : Map)
+    (hsgn : sgn ∉ mapping.map Prod.fst) (hnd : (mapping.map Prod.fst).Nodup) :
+    ∀ m ∈ mapNodes pick g sg C fuel sgn cands mapping tbm,
+      (m.map Prod.fst).Nodup ∧ ∃ rest, m = rest ++ mapping := by
+  induction fuel generalizing sgn cands mapping with
+  | zero => intro m hm; simp [mapNodes] at hm
+  | succ fuel ih =>
+    intro m hm
+    simp only [mapNodes, List.mem_flatMap] at hm
+    obtain ⟨gn, _, hm⟩ := hm
+    split at hm
+    · simp at hm
+    · have hnd' : (((sgn, gn) :: mapping).map Prod.fst).Nodup := by
+        simp only [List.map_cons, List.nodup_cons]; exact ⟨hsgn, hnd⟩
+      split at hm
+      · have : m = (sgn, gn) :: mapping := by simpa using hm
+        subst this
+        exact ⟨hnd', [(sgn, gn)], rfl⟩
+      · split at hm
+        · simp at hm
+        · rename_i hleft
+          have hne : (tbm.filter fun u => !(((sgn, gn) :: mapping).map Prod.fst).contains u) ≠ [] := by
+            intro e; apply hleft; rw [e]; rfl
+          have hp := hpick (List.foldl (addOptions g sg C sgn gn) (cands.set sgn [intersect (cands.get sgn)])
+            (tbm.filter fun u => !(((sgn, gn) :: mapping).map Prod.fst).contains u)) _ hne
+          obtain ⟨h1, rest, h2⟩ := ih _ _ _ (not_mem_of_mem_filter_not_contains hp) hnd' m hm
+          exact ⟨h1, rest ++ [(sgn, gn)], by rw [h2, List.append_assoc]; rfl⟩
+
+/-- two yielded mappings differ at some node of `to_be_mapped` -/
+def Differ (tbm : List Int) (m m' : Map) : Prop := ∃ u ∈ tbm, Map.toFun m u ≠ Map.toFun m' u
+
+theorem mapNodes_distinct {pick : Cands → List Int → Int} (hpick : PickOK pick) (g sg : Graph) (hg : g.keys.Nodup)
+    (C : Constraints) (tbm : List Int) (fuel : Nat) (sgn : Int) (cands : Cands) (mapping : Map)
+    (hn : NInv cands) (hsgn : sgn ∉ mapping.map Prod.fst) (hnd : (mapping.map Prod.fst).Nodup) :
+    (mapNodes pick g sg C fuel sgn cands mapping tbm).Pairwise (Differ tbm) := by
+  induction fuel generalizing sgn cands mapping with
+  | zero => simp [mapNodes]
+  | succ fuel ih =>
+    simp only [mapNodes]
+    rw [List.pairwise_flatMap]
+    constructor
+    · intro gn _
+      split
+      · exact List.Pairwise.nil
+      · split
+        · exact List.pairwise_singleton _ _
+        · split
+          · exact List.Pairwise.nil
+          · rename_i hleft
+            have hne : (tbm.filter fun u => !(((sgn, gn) :: mapping).map Prod.fst).contains u) ≠ [] := by
+              intro e; apply hleft; rw [e]; rfl
+            have hp := hpick (List.foldl (addOptions g sg C sgn gn) (cands.set sgn [intersect (cands.get sgn)])
+              (tbm.filter fun u => !(((sgn, gn) :: mapping).map Prod.fst).contains u)) _ hne
+            exact ih _ _ _ (nInv_step hg hn sgn gn _) (not_mem_of_mem_filter_not_contains hp)
+              (by simp only [List.map_cons, List.nodup_cons]; exact ⟨hsgn, hnd⟩)
+    · have hnod : (sortInts (intersect (cands.get sgn))).Nodup := sortInts_nodup (intersect_nodup (hn sgn))
+      refine hnod.imp ?_
+      intro gn gn' hne x hx y hy
+      -- both branches are the tail of a `mapNodes (fuel+1)` computation: use the structure lemma
+      have hval : ∀ (gn : Int) (x : Map),
+          x ∈ (if ((mapping.any fun p => p.2 == gn) || !tbm.contains sgn) = true then []
+            else if sameSet tbm (((sgn, gn) :: mapping).map Prod.fst) = true then [(sgn, gn) :: mapping]
+            else if (tbm.filter fun u => !(((sgn, gn) :: mapping).map Prod.fst).contains u).isEmpty = true then []
+            else mapNodes pick g sg C fuel
+              (pick (List.foldl (addOptions g sg C sgn gn) (cands.set sgn [intersect (cands.get sgn)])
+                (tbm.filter fun u => !(((sgn, gn) :: mapping).map Prod.fst).contains u))
+                (tbm.filter fun u => !(((sgn, gn) :: mapping).map Prod.fst).contains u))
+              (List.foldl (addOptions g sg C sgn gn) (cands.set sgn [intersect (cands.get sgn)])
+                (tbm.filter fun u => !(((sgn, gn) :: mapping).map Prod.fst).contains u))
+              ((sgn, gn) :: mapping) tbm) →
+          sgn ∈ tbm ∧ Map.toFun x sgn = gn := by
+        intro gn x hx
+        split at hx
+        · simp at hx
+        · rename_i hcond
+          have htbm : sgn ∈ tbm := by
+            simp only [Bool.or_eq_true, Bool.not_eq_true', not_or, Bool.not_eq_false] at hcond
+            simpa using hcond.2
+          have hnd' : (((sgn, gn) :: mapping).map Prod.fst).Nodup := by
+            simp only [List.map_cons, List.nodup_cons]; exact ⟨hsgn, hnd⟩
+          refine ⟨htbm, ?_⟩
+          split at hx
+          · have : x = (sgn, gn) :: mapping := by simpa using hx
+            subst this
+            exact toFun_of_mem hnd' (by simp)
+          · split at hx
+            · simp at hx
+            · rename_i hleft
+              have hne : (tbm.filter fun u => !(((sgn, gn) :: mapping).map Prod.fst).contains u) ≠ [] := by
+                intro e; apply hleft; rw [e]; rfl
+              have hp := hpick (List.foldl (addOptions g sg C sgn gn) (cands.set sgn [intersect (cands.get sgn)])
+                (tbm.filter fun u => !(((sgn, gn) :: mapping).map Prod.fst).contains u)) _ hne
+              obtain ⟨h1, rest, h2⟩ := mapNodes_struct hpick g sg C tbm fuel _ _ _
+                (not_mem_of_mem_filter_not_contains hp) hnd' x hx
+              exact toFun_of_mem h1 (by rw [h2]; simp)
+      obtain ⟨htbm, hxv⟩ := hval gn x hx
+      obtain ⟨_, hyv⟩ := hval gn' y hy
+      exact ⟨sgn, htbm, by rw [hxv, hyv]; exact hne⟩
+
+/-! ### the look-ahead candidates keep every isomorphism -/
+
+/-- the edge list has no entry joining a node to itself (graphs are simple) -/
+def noSelfLoops (g : Graph) : Bool := g.edges.all fun e => e.1 != e.2.1
+
+theorem ecol_self_none {g : Graph} (h : noSelfLoops g = true) (u : Int) : g.ecol u u = none := by
+  unfold Graph.ecol
+  have : g.edges.find? (joins u u) = none := by
+    rw [List.find?_eq_none]
+    intro e he hj
+    have hne := List.all_eq_true.1 h e he
+    simp only [joins, Bool.or_self, Bool.and_eq_true, beq_iff_eq] at hj
+    simp only [bne_iff_ne, ne_eq] at hne
+    exact hne (hj.1.trans hj.2.symm)
+  rw [this]; rfl
+
+theorem nbCount_le {g sg : Graph} (hs : sg.keys.Nodup) (hloop : noSelfLoops sg = true) {F : Int → Int}
+    (hF : IsIndIsoOn g sg (colourPred g sg) sg.keys F) {u : Int} (hu : u ∈ sg.keys) (ec nc : Int) :
+    nbCount sg u ec nc ≤ nbCount g (F u) ec nc := by
+  unfold nbCount
+  have hN : ∀ w ∈ sg.keys.filter (fun v => sg.ecol u v == some ec && sg.ncol v == some nc),
+      w ∈ sg.keys ∧ w ≠ u ∧ sg.ecol u w = some ec ∧ sg.ncol w = some nc := by
+    intro w hw
+    simp only [List.mem_filter, Bool.and_eq_true, beq_iff_eq] at hw
+    refine ⟨hw.1, ?_, hw.2.1, hw.2.2⟩
+    intro e; subst e
+    rw [ecol_self_none hloop] at hw
+    simp at hw
+  have hnd : ((sg.keys.filter (fun v => sg.ecol u v == some ec && sg.ncol v == some nc)).map F).Nodup := by
+    rw [List.nodup_iff_pairwise_ne, List.pairwise_map]
+    refine List.Pairwise.imp_of_mem ?_ (hs.filter _)
+    intro a b ha hb hne
+    exact hF.inj a (hN a ha).1 b (hN b hb).1 hne
+  have hsub : (sg.keys.filter (fun v => sg.ecol u v == some ec && sg.ncol v == some nc)).map F
+      ⊆ g.keys.filter (fun v => g.ecol (F u) v == some ec && g.ncol v == some nc) := by
+    intro x hx
+    obtain ⟨w, hw, rfl⟩ := List.mem_map.1 hx
+    obtain ⟨h1, h2, h3, h4⟩ := hN w hw
+    simp only [List.mem_filter, Bool.and_eq_true, beq_iff_eq]
+    refine ⟨(hF.node w h1).1, ?_, ?_⟩
+    · rw [hF.edge u hu w h1 (fun e => h2 e.symm)]; exact h3
+    · have := (hF.node w h1).2
+      simp only [colourPred, beq_iff_eq] at this
+      rw [this]; exact h4
+  have := hnd.length_le_of_subset hsub
+  simpa using this
+
+theorem lookaheadOK_of_iso (edgeNone : Bool) {g sg : Graph} (hs : sg.keys.Nodup) (hloop : noSelfLoops sg = true)
+    {F : Int → Int} (hF : IsIndIsoOn g sg (colourPred g sg) sg.keys F) {u : Int} (hu : u ∈ sg.keys) :
+    lookaheadOK edgeNone g sg u (F u) = true := by
+  unfold lookaheadOK
+  rw [List.all_eq_true]
+  intro v _
+  split
+  · rw [Bool.or_eq_true]; right
+    exact decide_eq_true (nbCount_le hs hloop hF hu _ _)
+  · rfl
+
+theorem cInv_initial (edgeNone : Bool) {g sg : Graph} (hs : sg.keys.Nodup) (hloop : noSelfLoops sg = true)
+    {F : Int → Int} (hF : IsIndIsoOn g sg (colourPred g sg) sg.keys F) :
+    CInv (initialCands edgeNone g sg) [] sg.keys F := by
+  intro u hu _
+  obtain ⟨h1, h2⟩ := get_initialCands edgeNone g sg hu
+  refine ⟨fun e => by rw [e] at h1; simp at h1, ?_⟩
+  intro s hs'
+  rcases h2 s hs' with rfl | rfl
+  · exact (mem_nodeColourSet g sg u _).2 (hF.node u hu)
+  · simp only [lookaheadSet, List.mem_filter]
+    exact ⟨(hF.node u hu).1, lookaheadOK_of_iso edgeNone hs hloop hF hu⟩
+
+theorem cInv_nodecolor {g sg : Graph} {tbm : List Int} (htbm : ∀ u ∈ tbm, u ∈ sg.keys) {F : Int → Int}
+    (hF : IsIndIsoOn g sg (colourPred g sg) tbm F) : CInv (findNodecolorCandidates g sg) [] tbm F := by
+  intro u hu _
+  rw [get_findNodecolorCandidates g sg (htbm u hu)]
+  refine ⟨by simp, ?_⟩
+  intro s hs
+  have : s = nodeColourSet g sg u := by simpa using hs
+  subst this
+  exact (mem_nodeColourSet g sg u _).2 (hF.node u hu)
+
+theorem get_of_not_mem_keys {β} (l : List Int) (f : Int → β) {u : Int} (h : u ∉ l) :
+    (l.map fun u => (u, f u)).lookup u = none := by
+  induction l with
+  | nil => rfl
+  | cons a l ih =>
+    simp only [List.mem_cons, not_or] at h
+    have : (u == a) = false := by simpa using h.1
+    simp only [List.map_cons, List.lookup, this]; exact ih h.2
+
+theorem nInv_initial (edgeNone : Bool) {g sg : Graph} (hg : g.keys.Nodup) : NInv (initialCands edgeNone g sg) := by
+  intro u s hs
+  by_cases hu : u ∈ sg.keys
+  · rcases (get_initialCands edgeNone g sg hu).2 s hs with rfl | rfl
+    · exact hg.filter _
+    · exact hg.filter _
+  · unfold initialCands Cands.get at hs
+    rw [get_of_not_mem_keys sg.keys _ hu] at hs
+    simp at hs
+
+theorem nInv_nodecolor {g sg : Graph} (hg : g.keys.Nodup) : NInv (findNodecolorCandidates g sg) := by
+  intro u s hs
+  by_cases hu : u ∈ sg.keys
+  · rw [get_findNodecolorCandidates g sg hu] at hs
+    have : s = nodeColourSet g sg u := by simpa using hs
+    subst this; exact hg.filter _
+  · unfold findNodecolorCandidates Cands.get at hs
+    rw [get_of_not_mem_keys sg.keys _ hu] at hs
+    simp at hs
+
+theorem initialCands_keys (edgeNone : Bool) (g sg : Graph) : (initialCands edgeNone g sg).map Prod.fst = sg.keys := by
+  unfold initialCands
+  rw [List.map_map]
+  conv => rhs; rw [← List.map_id sg.keys]
+  apply List.map_congr_left; intro u _; rfl
+
+theorem initialCands_any (edgeNone : Bool) (g sg : Graph) (h : sg.keys ≠ []) :
+    ((initialCands edgeNone g sg).any fun e => !e.2.isEmpty) = true := by
+  obtain ⟨u, hu⟩ := List.exists_mem_of_ne_nil _ h
+  rw [List.any_eq_true]
+  refine ⟨(u, _), List.mem_map.2 ⟨u, hu, rfl⟩, ?_⟩
+  dsimp only
+  split
+  · rfl
+  · unfold insertSet; split <;> simp
+
+/-- under `antisymB` the search's demand on every ordered pair is "every listed constraint holds" -/
+theorem sol_iff_satisfies {C : Constraints} (ha : antisymB C = true) (S : List Int) (F : Int → Int) :
+    (∀ a ∈ S, ∀ b ∈ S, a ≠ b → cOK C a (F a) b (F b) = true) ↔ Satisfies C S F := by
+  rw [antisymB_iff] at ha
+  constructor
+  · intro h lo hi hc hlo hhi
+    have hne : lo ≠ hi := by intro e; subst e; exact ha _ _ hc hc
+    have := h lo hlo hi hhi hne
+    have hc' : C.contains (lo, hi) = true := by simpa using hc
+    simp only [cOK, hc', if_true, decide_eq_true_eq] at this
+    exact this
+  · intro h a ha' b hb _
+    unfold cOK
+    split
+    · rename_i h1; exact decide_eq_true (h a b (by simpa using h1) ha' hb)
+    · split
+      · rename_i h2; exact decide_eq_true (h b a (by simpa using h2) hb ha')
+      · rfl
+
 end C06I
